@@ -1123,3 +1123,221 @@ def gen_motor(g):
 
 
 PROFILES['motor'] = gen_motor
+
+
+# ---------------------------------------------------------------------------
+# C10 / C20: declaration machine
+
+def gen_decl(g):
+    r = g.rng
+    els = []
+
+    def add(e, name=None):
+        e['name'] = name or f"n{len(els)}"
+        els.append(e)
+        return len(els) - 1
+    n_mot = r.choice([1, 1, 2])
+    for _ in range(n_mot):
+        add(g.motor('m'))
+    for _ in range(r.choice([0, 1, 2])):
+        add({'kind': 'Flywheel', 'J': g.inertia()})
+    modules = [g.q('Length', x * 1e-3) for x in r.sample([0.5, 1, 2, 3, 4], 2)]
+    helixes = [g.q('Angle', x * pi / 180) for x in r.sample([10, 15, 20, 30], 2)]
+    for _ in range(r.choice([2, 3, 4, 5])):
+        add({'kind': 'SpurGear', 'z': g.teeth(), 'J': g.inertia(),
+             'm': list(r.choice(modules)) if g.chance(0.7) else None,
+             'b': None, 'E': None})
+    for _ in range(r.choice([0, 2, 3])):
+        add({'kind': 'HelicalGear', 'z': g.teeth(), 'J': g.inertia(),
+             'beta': list(r.choice(helixes)),
+             'm': list(r.choice(modules)) if g.chance(0.7) else None,
+             'b': None, 'E': None})
+    alphas = r.sample([14.5, 20.0, 25.0, 30.0], 2)
+    for _ in range(r.choice([0, 1, 2, 2])):
+        a = r.choice(alphas) if g.chance(0.8) else alphas[0]
+        hmax = rm.WORM_TABLE[a][0]
+        beta = g.q('Angle', r.uniform(2.0, hmax * 0.98) * pi / 180)
+        add({'kind': 'WormGear', 'starts': r.choice([1, 2, 3, 4]),
+             'J': g.inertia(), 'beta': list(beta), 'alpha': [a, 'deg'],
+             'd': None})
+        add({'kind': 'WormWheel', 'z': g.teeth(), 'J': g.inertia(),
+             'beta': list(beta), 'alpha': [a, 'deg'], 'm': None, 'b': None})
+    # duplicate names, inside and outside the chain
+    if g.chance(0.3):
+        i, j = r.sample(range(len(els)), 2)
+        els[j]['name'] = els[i]['name']
+    esi = [rm.elem_si(e) for e in els]
+    model = rm.DeclModel(esi)
+    decls = []
+    n_decl = r.randint(1, g.cfg.get('max_decls', 30))
+    tail = 0
+    by_kind = {}
+    for i, e in enumerate(els):
+        by_kind.setdefault(e['kind'], []).append(i)
+
+    def reaches(a, b):
+        """does a's drive chain reach b (model state)?"""
+        seen = set()
+        while a is not None and a not in seen:
+            if a == b:
+                return True
+            seen.add(a)
+            a = model.drives[a]
+        return False
+
+    def valid_for(m):
+        """a declaration with master m that the documentation accepts."""
+        km = els[m]['kind']
+        opts = []
+        for s, e in enumerate(els):
+            if s == m or e['kind'] == 'DCMotor':
+                continue
+            opts.append({'op': 'joint', 'm': m, 's': s})
+            ks = e['kind']
+            if km in ('SpurGear', 'HelicalGear') and ks == km:
+                opts.append({'op': 'gear', 'm': m, 's': s,
+                             'eff': r.choice([1, 0.9, 0.5, 0,
+                                              round(r.uniform(0, 1), 3)])})
+            if {km, ks} == {'WormGear', 'WormWheel'}:
+                opts.append({'op': 'worm', 'm': m, 's': s,
+                             'f': r.choice([0, 0.05, 0.2, 0.5, 0.95, 1,
+                                            round(r.uniform(0, 1), 3)])})
+        r.shuffle(opts)
+        for d in opts:
+            if model.judge(d)[0] == 'accept' and not reaches(d['s'], d['m']):
+                return d
+        return None
+
+    def reject_decl():
+        kinds = ['self', 'motor_slave', 'eff_range', 'eff_type', 'f_range',
+                 'f_type', 'module', 'helix', 'spur_helical', 'alpha',
+                 'worm_worm', 'wheel_wheel', 'not_gear', 'not_worm',
+                 'worm_eff_range']
+        r.shuffle(kinds)
+        for kd in kinds:
+            d = None
+            sp, he = by_kind.get('SpurGear', []), by_kind.get('HelicalGear', [])
+            wg, ww = by_kind.get('WormGear', []), by_kind.get('WormWheel', [])
+            gears = sp + he
+            if kd == 'self':
+                i = r.randrange(1, len(els))
+                d = r.choice([{'op': 'joint', 'm': i, 's': i}] +
+                             ([{'op': 'gear', 'm': i, 's': i, 'eff': 0.9}]
+                              if i in gears else []))
+            elif kd == 'motor_slave':
+                i = r.randrange(len(els))
+                if i != 0:
+                    d = r.choice([{'op': 'joint', 'm': i, 's': 0},
+                                  {'op': 'gear', 'm': i, 's': 0, 'eff': 0.9}])
+            elif kd in ('eff_range', 'eff_type') and len(sp) >= 2:
+                a, b = r.sample(sp, 2)
+                bad = r.choice([1.5, -0.1, 2, -1, 1.0000001]) \
+                    if kd == 'eff_range' else r.choice(['0.9', None, [0.9]])
+                d = {'op': 'gear', 'm': a, 's': b, 'eff': bad}
+            elif kd in ('f_range', 'f_type') and wg and ww:
+                bad = r.choice([1.5, -0.1, 2, -1]) if kd == 'f_range' \
+                    else r.choice(['0.2', None])
+                a, b = r.choice(wg), r.choice(ww)
+                if g.chance(0.5):
+                    a, b = b, a
+                d = {'op': 'worm', 'm': a, 's': b, 'f': bad}
+            elif kd == 'module':
+                c = [(a, b) for a in gears for b in gears if a != b and
+                     els[a]['kind'] == els[b]['kind'] and els[a]['m'] and
+                     els[b]['m'] and els[a]['m'] != els[b]['m']]
+                if c:
+                    a, b = r.choice(c)
+                    d = {'op': 'gear', 'm': a, 's': b, 'eff': 0.9}
+            elif kd == 'helix':
+                c = [(a, b) for a in he for b in he if a != b and
+                     els[a]['beta'] != els[b]['beta']]
+                if c:
+                    a, b = r.choice(c)
+                    d = {'op': 'gear', 'm': a, 's': b, 'eff': 0.9}
+            elif kd == 'spur_helical' and sp and he:
+                a, b = r.choice(sp), r.choice(he)
+                if g.chance(0.5):
+                    a, b = b, a
+                d = {'op': 'gear', 'm': a, 's': b, 'eff': 0.9}
+            elif kd == 'alpha':
+                c = [(a, b) for a in wg for b in ww
+                     if els[a]['alpha'] != els[b]['alpha']]
+                if c:
+                    a, b = r.choice(c)
+                    if g.chance(0.5):
+                        a, b = b, a
+                    d = {'op': 'worm', 'm': a, 's': b, 'f': 0.1}
+            elif kd == 'worm_worm' and len(wg) >= 2:
+                a, b = r.sample(wg, 2)
+                d = {'op': 'worm', 'm': a, 's': b, 'f': 0.1}
+            elif kd == 'wheel_wheel' and len(ww) >= 2:
+                a, b = r.sample(ww, 2)
+                d = {'op': 'worm', 'm': a, 's': b, 'f': 0.1}
+            elif kd == 'not_gear' and gears:
+                others = by_kind.get('Flywheel', []) + wg + [0]
+                a, b = r.choice(others), r.choice(gears)
+                if g.chance(0.5):
+                    a, b = b, a
+                d = {'op': 'gear', 'm': a, 's': b, 'eff': 0.9}
+            elif kd == 'not_worm' and (wg or ww) and gears:
+                a, b = r.choice(wg + ww), r.choice(gears + [0])
+                if g.chance(0.5):
+                    a, b = b, a
+                d = {'op': 'worm', 'm': a, 's': b, 'f': 0.1}
+            elif kd == 'worm_eff_range' and wg and ww:
+                # a friction inside [0, 1] that drives the documented
+                # efficiency formula outside [0, 1]
+                c = [(a, b) for a in wg for b in ww
+                     if els[a]['alpha'] == els[b]['alpha']]
+                r.shuffle(c)
+                for a, b in c:
+                    for mm, ss in ((b, a), (a, b)):
+                        for f in (0.99, 0.9, 0.7, 0.5, 0.3):
+                            dd = {'op': 'worm', 'm': mm, 's': ss, 'f': f}
+                            eta = model.worm_efficiency(dd)
+                            if eta is not None and (eta < -0.01 or eta > 1.01):
+                                d = dd
+                                break
+                        if d:
+                            break
+                    if d:
+                        break
+            if d is not None and model.judge(d)[0] == 'reject':
+                d['fault'] = kd
+                return d
+        return None
+
+    for _ in range(n_decl):
+        c = r.random()
+        d = None
+        if c < 0.5:
+            d = valid_for(tail)
+            if d is not None:
+                tail_next = d['s']
+        elif c < 0.7:
+            d = valid_for(r.randrange(len(els)))
+        else:
+            d = reject_decl()
+        if d is None:
+            continue
+        decls.append(d)
+        if model.judge(d)[0] == 'accept':
+            model.apply(d)
+            if d['m'] == tail:
+                tail = d['s']
+    scn = {'seed': g.seed, 'profile': 'decl', 'elements': els, 'decls': decls,
+           'motor': 0, 'track_relations': True, 'assemble': True,
+           'wall': 1.0, 'schedule': []}
+    sched = [{'op': 'probe_immutable'}]
+    # post-assembly re-declarations must not change the assembled powertrain
+    for _ in range(r.choice([0, 1, 2])):
+        d = valid_for(r.randrange(len(els)))
+        if d is not None:
+            model.apply(d)
+            sched.append({'op': 'redeclare', 'decl': d})
+    sched.append({'op': 'probe_immutable'})
+    scn['schedule'] = sched
+    return scn
+
+
+PROFILES['decl'] = gen_decl
